@@ -2,9 +2,13 @@ module symgo
 
 go 1.23
 
-require golang.org/x/tools v0.29.0
+require (
+	github.com/rickb777/date v1.21.1
+	golang.org/x/tools v0.29.0
+)
 
 require (
+	github.com/rickb777/plural v1.4.2 // indirect
 	golang.org/x/mod v0.22.0 // indirect
 	golang.org/x/sync v0.10.0 // indirect
 )
